@@ -177,6 +177,42 @@ example : tokenToClassname ["Name".toList, "Exception".toList] = "pygments.name.
 example : (compile G gsp grsp (pygmentsRules [(["Name".toList], "bold".toList)])).toOption.map
     (fun rs => rs.map (·.names)) = some [[tokenToClassname ["Name".toList]]] := by decide +kernel
 
+/-! ## 11c. the 256-colour table is the xterm palette -/
+
+/-- the xterm 256-colour palette, stated independently of /repo: `16 + 36 r + 6 g + b` is the colour cube
+    over the levels 00 5f 87 af d7 ff, `232 + k` is the grey `8 + 10 k` -/
+def xtermLevel (n : Nat) : Nat := [0x00, 0x5f, 0x87, 0xaf, 0xd7, 0xff].getD n 0
+def xtermRgb (i : Nat) : RGB :=
+  if i < 232 then (xtermLevel ((i - 16) / 36), xtermLevel ((i - 16) / 6 % 6), xtermLevel ((i - 16) % 6))
+  else (8 + 10 * (i - 232), 8 + 10 * (i - 232), 8 + 10 * (i - 232))
+
+def xtermOkB (pal : List RGB) : Bool :=
+  (enumFrom 0 pal).all fun ip => decide (ip.1 < 16) || ip.1 == 232 || ip.2 == xtermRgb ip.1
+
+theorem gen_pal_xterm_b : xtermOkB G.pal256 = true := by decide +kernel
+
+/-- **C19-ai (the palette indices are the xterm indices).**  Every entry 16..253 of the table regenerated
+    from /repo, except the second black the library keeps at 232 (xterm has grey 8 there), is the
+    xterm colour of its index — so an index sent as `38;5;n` names the colour a terminal shows, and
+    the exact xterm colour of index `n` is sent as `n`. -/
+theorem gen_pal_xterm (i : Nat) (p : RGB) (h16 : 16 ≤ i) (h232 : i ≠ 232) (hp : G.pal256[i]? = some p) :
+    p = xtermRgb i ∧ closest256 G.pal256 (xtermRgb i) = i := by
+  have hmem : (i, p) ∈ enumFrom 0 G.pal256 := mem_enumFrom_zero.mpr hp
+  have := List.all_eq_true.mp gen_pal_xterm_b (i, p) hmem
+  simp only [Bool.or_eq_true, decide_eq_true_eq, beq_iff_eq] at this
+  have hpe : p = xtermRgb i := by
+    rcases this with (h | h) | h
+    · omega
+    · exact absurd h h232
+    · exact h
+  refine ⟨hpe, ?_⟩
+  rw [← hpe]
+  exact (map256_fixed_points i h16 p hp).2 h232
+
+example : xtermRgb 16 = (0, 0, 0) ∧ xtermRgb 196 = (255, 0, 0) ∧ xtermRgb 231 = (255, 255, 255) ∧
+    xtermRgb 233 = (18, 18, 18) ∧ xtermRgb 253 = (218, 218, 218) ∧ G.pal256[233]? = some (18, 18, 18) := by
+  decide +kernel
+
 /-! ## 12. every Attrs field is encoded and decoded -/
 
 /-- **C19-ag.**  On the tables extracted from the CURRENT source: every flag field of `Attrs` has a
